@@ -443,7 +443,7 @@ ORACLES = {"C09": oracle_c09, "C02": oracle_c02, "C05": oracle_c05, "C06": oracl
 # ---- projections: which part of a reply a property's correspondence compares --------------
 
 def project(prop, reply):
-    if prop in ("C02", "C10", "C11", "C09", "C14", "C16", "C12", "C13", "C15", "C17", "C19", "C20", "C01"):
+    if prop in ("C02", "C10", "C11", "C09", "C14", "C16", "C19", "C12", "C13", "C15", "C17", "C19", "C20", "C01"):
         return reply
     parts = []
     for part in reply.split(" | "):
@@ -469,7 +469,13 @@ def run_stream(mode, args, timeout=900):
     Returns dict(reqs, impl, model, rc, err)."""
     d = scratch("wvs")
     try:
-        rc, out, err = run([WIREVERIF, mode, "-out", d] + [str(a) for a in args], timeout=timeout)
+        if mode == "gather":
+            from .common import WIRESHOW, GOENV
+            a = dict(zip(args[::2], args[1::2]))
+            env = dict(GOENV, WIREVERIF_GATHER="%s,%s,%s" % (a.get("-seed", 1), a.get("-n", 1000), d))
+            rc, out, err = run([WIRESHOW], env=env, timeout=timeout)
+        else:
+            rc, out, err = run([WIREVERIF, mode, "-out", d] + [str(a) for a in args], timeout=timeout)
         reqs = open(d + "/req.txt").read().split("\n") if os.path.exists(d + "/req.txt") else []
         impl = open(d + "/impl.txt").read().split("\n") if os.path.exists(d + "/impl.txt") else []
         meta = open(d + "/meta.txt").read().split("\n") if os.path.exists(d + "/meta.txt") else []
